@@ -363,11 +363,11 @@ def layout_cases(draw):
 
 
 CLAUSES = [
-    Clause('hand-written-corpus', check_hand, kind='exhaustive', enumerate=_hand_cases, shards={'quick': 4, 'thorough': 4},
+    Clause('hand-written-corpus', check_hand, kind='exhaustive', enumerate=_hand_cases, shards={'quick': 4, 'thorough': 12},
            space='hand-written sources with hand-derived expected trees (precedence, associativity, suffixes, TTC arithmetic, multiplicities)'),
-    Clause('shipped-languages', check_roundtrip, kind='exhaustive', enumerate=_shipped, shards={'quick': 4, 'thorough': 4},
+    Clause('shipped-languages', check_roundtrip, kind='exhaustive', enumerate=_shipped, shards={'quick': 4, 'thorough': 12},
            space='coreLang and its union variant from the shipped .mar files (reference compiler output), single file and split over 4 files'),
-    Clause('roundtrip', check_roundtrip, kind='random', strategy=roundtrip_cases, budget={'quick': 2500, 'thorough': 20000}),
-    Clause('freeform-trees', check_roundtrip, kind='random', strategy=freeform_cases, budget={'quick': 1500, 'thorough': 15000}),
-    Clause('layouts', check_roundtrip, kind='random', strategy=layout_cases, budget={'quick': 1000, 'thorough': 8000}),
+    Clause('roundtrip', check_roundtrip, kind='random', strategy=roundtrip_cases, budget={'quick': 2500, 'thorough': 60000}),
+    Clause('freeform-trees', check_roundtrip, kind='random', strategy=freeform_cases, budget={'quick': 1500, 'thorough': 45000}),
+    Clause('layouts', check_roundtrip, kind='random', strategy=layout_cases, budget={'quick': 1000, 'thorough': 24000}),
 ]
